@@ -8,7 +8,7 @@ import numpy as np
 ID = "C01"
 PROPS_FILE = "theories/Props/C01.v"
 EXTRACT = ("theories/Extract/XC01.v", "c01",
-           ["entry_lapjv", "entry_track", "entry_cert", "entry_pm", "entry_wf", "entry_total", "entry_track_ok"])
+           ["entry_lapjv", "entry_arr", "entry_track", "entry_cert", "entry_pm", "entry_wf", "entry_total", "entry_track_ok"])
 PYX = {"_lapjv.pyx": ["reduction_transfer", "augmenting_row_reduction", "augment", "bsearch"]}
 CASE_TIMEOUT = 150
 S = 30                      # costs are dyadic with at most S fractional bits; the model works on cost * 2^S
@@ -852,12 +852,29 @@ def check(ctx, cases, outs):
                 ctx.count("fixed-model-with-SENTINEL-inf:no-result(F20 also hits the row-offset-repaired variant)")
         fm = [None if isinstance(m, dict) or m == [] else tuple(m) for m in fm]
         cert = _certified(ctx, [cases[k] for k in li], fm)
-        for k, m, g in zip(li, fm, cert):
+        # (H-arr) the one premise of C01_lapjv_ref_fixed_total_partial / _correct_partial, evaluated by the extracted
+        # Model.Lapjv.arr_returns_b: augmenting row reduction of the (Fixed, eps 0 at :202, 2^-26 at :208) solver returns
+        # within the model's fuel.  With >= 2 candidates per row the theorems say: premise <=> the reference model returns
+        # (and then its result is optimal); a disagreement is a bug of extraction / harness.
+        arr = ctx.run_model("entry_arr", [[EPS, cases[k]["k"], cases[k]["n"], cases[k]["tri"]] for k in li])
+        for k, m, g, a in zip(li, fm, cert, arr):
             rows = {}
             for t in cases[k]["tri"]:
                 rows[t[0]] = rows.get(t[0], 0) + 1
             two = min(rows.values()) >= 2
             ctx.count("hyp:rows>=2-candidates" if two else "hyp:has-one-candidate-row")
+            if not two and cases[k]["k"] == 0:
+                ctx.count("hyp:one-candidate-row-but-0-passes(covered by C01_lapjv_ref_fixed_correct_k0)")
+            two = two or cases[k]["k"] == 0          # from here on: "covered by an end-to-end theorem"
+            prem = (a == 1)
+            ctx.count("hyp:arr-returns(premise of C01_lapjv_ref_fixed_total_partial)" + (":holds" if prem else ":FAILS")
+                      + ("" if two else "(one-candidate row)"))
+            if res[k] is None and (two or not prem) and prem != (m is not None):
+                res[k] = ("INTERNAL: arr_returns_b = %s but the extracted reference model (Fixed, eps 0, true infinity) %s - "
+                          "contradicts C01_lapjv_ref_fixed_total_partial / C01_lapjv_ref_returns_arr"
+                          % (prem, "returned" if m is not None else "gave no result"))
+            if not two and prem and m is None:
+                ctx.count("hyp:one-candidate-row:premise holds but reference model gives no result")
             if m is None:
                 ctx.count("hyp:fixed-model-NO-RESULT(total not proved)")
                 ctx.note("Fixed model returned no result on a generated case (n=%d): hypothesis of C01_lapjv_fixed_optimal not met" % cases[k]["n"])
@@ -1041,7 +1058,7 @@ def shrink_candidates(case):
 
 MANIFEST = {
     "level_text": (
-        "Machine-checked proofs (Coq 8.16, 56 theorems, all closed under the global context) about (a) the certificate "
+        "Machine-checked proofs (Coq 8.16, 62 theorems, all closed under the global context) about (a) the certificate "
         "checker cert_ok that is run, extracted, on the implementation's own (x, y, u, v): acceptance implies x is a "
         "minimum-cost perfect matching over listed pairs, y its inverse and (u, v) a dual certificate, for every n and every "
         "sparsity pattern; (b) a line-level executable Gallina model of lapjv.py + _lapjv.pyx with switches rt in {AsIs, Fixed}, "
@@ -1057,7 +1074,12 @@ MANIFEST = {
         "C01_aug_dist_inv, price update C01_aug_price_slack, weak duality); the same two theorems hold for the reference variant "
         "lapjv_ref whose augment uses a true infinity (C01_lapjv_ref_fixed_pm, C01_lapjv_ref_fixed_optimal, distance invariant "
         "C01_aug_dist_invR over d in Fin | +inf), and for it a rebuild of scan at a loop head is proved non-empty from has_PM by "
-        "a Hall-block argument (C01_aug_scan_nonempty_ref); (c) the tracker's read-back of the solver result "
+        "a Hall-block argument (C01_aug_scan_nonempty_ref), hence augment ALWAYS RETURNS (C01_lapjv_ref_augment_total). End to "
+        "end for the reference variant: with augmenting_row_reductions = 0, for EVERY input of the quantifier (one-candidate "
+        "rows included) the solver returns an optimal perfect matching with inverse permutations - no premise left "
+        "(C01_lapjv_ref_fixed_correct_k0); with k >= 1 passes and >= 2 candidates per row the same under the single premise "
+        "arr_returns_b that the eps-retry passes of augmenting row reduction return within the model's fuel "
+        "(C01_lapjv_ref_fixed_correct_partial, _grid_partial for the code's eps on coarser cost grids); (c) the tracker's read-back of the solver result "
         "is injective for every permutation, and the identity clause holds at the level of the assignment problem."),
     "level_note": (
         "KNOWN FINDING F20 (inside the property's quantifier): memory safety of augment FAILS - `inf = np.sum(c) + 1` "
@@ -1070,12 +1092,12 @@ MANIFEST = {
         "the sentinel failed 1 810 times for the as-is model and never for the row-offset-repaired (Fixed) model (its only "
         "no-results, 186 in the last 300 000, are price wars that the true-infinity variant shares); whether inf = sum(c) + 1 is adequate once F1 "
         "is repaired is neither proved nor refuted. "
-        "Not proved: that the Fixed model always returns. For the reference variant the only augment-side gap is the "
-        "mechanical lemma aug_loop_totalR (the loop induction with 'exists result' on top of C01_aug_scan_nonempty_ref, "
-        "C01_aug_loop_fuel, C01_aug_lookup_defined); the whole-solver gap is the fuel of the eps-retry passes of augmenting row "
-        "reduction (with eps 0 in the retry decision totality is even false for the model's fuel, "
-        "C01_lapjv_fixed_eps0_not_total); for the sentinel variant additionally the adequacy of inf. "
-        "optimality for inputs with single-candidate rows (-inf prices): only the price-update core over InvE and the "
+        "Not proved (reference variant): arr_passes_total - that the eps-retry passes of augmenting row reduction return within "
+        "the model's fuel for epsr = 2^-26 (with eps 0 in the retry decision it is false for the model's fuel, "
+        "C01_lapjv_fixed_eps0_not_total); this premise (executable: Model.Lapjv.arr_returns_b, extracted entry_arr) is "
+        "evaluated on every generated case and cross-checked against the theorems (premise <=> the reference model returns). "
+        "For the sentinel variant additionally the adequacy of inf. "
+        "optimality for inputs with single-candidate rows AND k >= 1 passes (-inf prices): only the price-update core over InvE and the "
         "spec-level reserved-block lemma are proved. Both hypotheses are evaluated on every generated case by the check (the "
         "repaired model returns; rows with >= 2 candidates are theorem-covered, the others checker-only) and both clauses are "
         "covered per instance by the verified checker on every run. ASan stream of 3 000 has_PM instances (2 044 with a "
